@@ -122,7 +122,8 @@ def tok(h, v):
 def make_might_paint(case):
     skel = SKELETONS[case["skel"]]
     fill, stroke, display, where = case["fill"], case["stroke"], case["display"], case["where"]
-    fill_rule = case.get("fill_rule", "nonzero")
+    fill_rule = case.get("fill_rule", "nonzero")  # the EFFECTIVE rule under the cascade
+    fr_where = case.get("fill_rule_where", "attr")  # attr | style | both (attribute says the opposite, style wins)
     may_raise = case.get("raise", False)
 
     def harness(h):
@@ -138,7 +139,13 @@ def make_might_paint(case):
         place(attrs, style, "stroke", stroke, where, "none" if stroke != "none" else "blue")
         place(attrs, style, "display", display, where, "none" if display != "none" else "inline")
         # numbers: opacity as attribute, fill-opacity in style, rest per 'where'
-        kw = {"d": d, "opacity": op, "fill_rule": fill_rule}
+        kw = {"d": d, "opacity": op}
+        if fr_where == "attr":
+            kw["fill_rule"] = fill_rule
+        else:
+            style.append(f"fill-rule:{fill_rule}")
+            if fr_where == "both":
+                kw["fill_rule"] = "evenodd" if fill_rule == "nonzero" else "nonzero"
         if where == "attr":
             kw.update(fill_opacity=fo, stroke_opacity=so, stroke_width=sw)
         else:
@@ -359,6 +366,9 @@ def cases(tier, seed):
     for sk in ("closed", "two", "curve"):
         cs.append({"kind": "might_paint", "skel": sk, "fill": "red", "stroke": "<default>", "display": "<default>", "where": "attr", "fill_rule": "evenodd"})
         cs.append({"kind": "might_paint", "skel": sk, "fill": "red", "stroke": "<default>", "display": "<default>", "where": "attr", "raise": True})
+        for fr in ("evenodd", "nonzero"):
+            for frw in ("style", "both"):
+                cs.append({"kind": "might_paint", "skel": sk, "fill": "red", "stroke": "<default>", "display": "<default>", "where": "attr", "fill_rule": fr, "fill_rule_where": frw})
     pieces = ["move", "seg", "closed"]
     for n in (1, 2, 3):
         for combo in itertools.product(pieces, repeat=n):
@@ -433,6 +443,7 @@ def describe(tier):
         ),
         "bounds": {
             "skeletons": list(SKELETONS) if tier != "quick" else ["move", "seg", "closed", "two"],
+            "fill_rule": "nonzero/evenodd given as attribute, in style, or both with the attribute saying the opposite (style wins)",
             "paint": "fill in default/none/colour/url x stroke in default/none/colour x display in default/inline/none, given as attribute / style" + (" / both" if tier != "quick" else ""),
             "numbers": "opacity, fill-opacity, stroke-opacity in [0,1], stroke-width >= 0, all coordinates: every real",
             "remove_empty_subpaths": "1..3 pieces of move/segment/closed, 4 paint configurations",
